@@ -29,6 +29,11 @@ def d1(ctx, F):
         return
     classes = {}
     for r, name in ((comp, "COMPONENT_REGEX"), (top, "TOPIC_REGEX")):
+        import re as _re
+        inline = _re.findall(r"\(\?([a-zA-Z-]+)[:)]", r.literal)
+        ci = r.flags.get("case_insensitive") is True or any("i" in f.split("-")[0] for f in inline)
+        ctx.check(not ci and not inline, "C07.D1.flags", "regex-inline-flags:" + name,
+                  "%s uses no inline flag groups and is not case-insensitive (Unicode simple case folding would admit U+017F 'ſ' and U+212A 'K'); inline flags: %s" % (name, inline or "none"), r.span)
         ctx.check(r.anchored(), "C07.D1.anchored", "regex-unanchored:" + name, "%s literal %r is anchored with ^ and $" % (name, r.literal), r.span)
         ctx.check(r.flags.get("multi_line") in (False, None) and r.flags.get("ignore_whitespace") in (False, None),
                   "C07.D1.flags", "regex-flags:" + name, "%s: builder flags keep ^/$ whole-string anchors (multi_line=false) %s" % (name, r.flags), r.span)
